@@ -272,6 +272,14 @@ def run(ctx: Ctx, aspect="C02"):
         judge(ctx, s, evaluate(ctx, cs), aspect)
         done += 300
     s.finish()
+    if aspect == "C02" and not ctx.violations:
+        # the claim is not restricted to the default options: with external libraries included and external exclusion
+        # patterns given (also ones that textually match internal names) every statement still yields its internal edge
+        from . import c10
+
+        s = Stream(ctx, "non-default options: internal imports under externals included / external exclusion patterns (relational)")
+        c10.stream_cases(ctx, s, ctx.size(300, 3000), ctx.rng("c02-options"))
+        s.finish()
     if aspect == "C04" and not ctx.violations:
         s = Stream(ctx, "sub-scans: imports spelled relative to module_path's parent vs fully qualified (repeated directory names)")
         parent_relative(ctx, s, ctx.size(500, 4000))
